@@ -1,7 +1,18 @@
 import QR.Model.Compile
 import QR.Spec.Reader
+import QR.Proofs.ReadBack
+import QR.Proofs.Segmentation
+import QR.Props.C03
+import QR.Props.C09
 /-
-C01 - read (compile cfg payload) = payload.  (Composition theorem under construction; see DESIGN.md 6/C01.)
+C01 - read (compile cfg payload) = payload.
+Every symbol `Model.compile` produces (any valid configuration: version given / fitted, any of the four levels, mask given /
+chosen automatically; any list of valid segments, unbounded) is accepted by the strict ISO reader `Spec.read`, which is
+composed only of Spec definitions: size -> version, both format copies -> (level, mask), version information, every
+function-pattern module, zig-zag read-out and unmasking, zero remainder bits, Table 9 de-interleaving, every block a
+Reed-Solomon codeword (all syndromes zero), ISO bit-stream grammar.  The reader returns exactly the segments, hence the
+payload.  The proof composes C02 (blocks), C03 (totality, version), C04 (format/version information), C05 (function
+patterns, placement), C06 (bit stream), C09 (mask) and C10 (`add_data`).
 -/
 namespace QR.Props
 open QR
@@ -17,5 +28,103 @@ theorem C01_example_roundtrip :
         | .ok r => r.version == v && r.mask == m && r.payload == [104, 105] && r.level == Spec.Level.M
         | .error _ => false)
      | .error _ => false) = true := by decide +kernel
+
+/-- `compile` = `create_data` followed by the final `makeImpl(False, mask)` (C09, both ways of getting the mask) -/
+theorem compile_parts (cfg : Model.Cfg) (segs : List Model.Seg) (v m : Nat) (M : Model.Mat)
+    (h : Model.compile cfg segs = .ok (v, m, M)) :
+    ∃ data, Model.createData v cfg.level segs = .ok data ∧ Model.makeImpl v cfg.level false m data = .ok M := by
+  cases hcm : cfg.mask with
+  | some m' =>
+    obtain ⟨rfl, data, hd, hM⟩ := C09_explicit cfg segs m' hcm v m M h
+    exact ⟨data, hd, hM⟩
+  | none =>
+    obtain ⟨data, hd, _, hM⟩ := C09_auto_recorded cfg segs hcm v m M h
+    exact ⟨data, hd, hM⟩
+
+/-- **C01 (main)**: for every valid configuration, level and list of valid segments, whenever `compile` succeeds the
+    strict ISO reader accepts the symbol and returns the version and mask `compile` reports, the requested level, exactly
+    the segments (so exactly the payload), with conformant terminator / padding; the version and mask are the requested
+    ones where requested -/
+theorem C01_read_compile (cfg : Model.Cfg) (hcfg : cfg.Valid) (l : Spec.Level) (hl : cfg.level = l.indicator)
+    (segs : List Model.Seg) (hv : ∀ s ∈ segs, s.Valid)
+    (ps : List Spec.PSeg) (hp : toPSegs segs = some ps) (v m : Nat) (M : Model.Mat)
+    (h : Model.compile cfg segs = .ok (v, m, M)) :
+    ∃ r, Spec.read (symOf M) = .ok r ∧ r.version = v ∧ r.level = l ∧ r.mask = m ∧ r.segs = ps ∧
+      r.tailConformant = true ∧ r.payload = segs.flatMap (·.data) ∧ (∀ m', cfg.mask = some m' → m = m') ∧
+      (cfg.version ≠ 0 → cfg.fit = false → v = cfg.version) ∧ cfg.version ≤ v := by
+  obtain ⟨h1, h40, hm7, _⟩ := C03_ok_range cfg hcfg l hl segs hv ps hp v m M h
+  obtain ⟨hvs, hmask⟩ := C03_version cfg hcfg l hl segs hv ps hp v m M h
+  obtain ⟨data, hd, hM⟩ := compile_parts cfg segs v m M h
+  rw [hl] at hd hM
+  have hk : m < 8 := by omega
+  obtain ⟨hlen, hby, hcode, hstream, _⟩ := Sym.createData_spec v h1 h40 l segs hv ps hp data hd
+  obtain ⟨M', hM', hshape, _⟩ := Sym.makeImpl_spec v l.indicator m false data h1 h40 (Sym.indicator_lt l) hk
+  rw [hM] at hM'
+  injection hM' with hM'
+  subst hM'
+  have hS : GeoC.Shows (symOf M) (Spec.size v) M := ⟨hshape.1, fun r c _ _ => rfl⟩
+  have hread := Sym.read_makeImpl v l m data _ ps true M (symOf M) h1 h40 hk hM hS hlen hby hcode rfl hstream
+  refine ⟨_, hread, rfl, rfl, rfl, rfl, rfl, Sym.toPSegs_payload segs ps hp, hmask, ?_, ?_⟩
+  · intro h0 hfit
+    rw [hfit] at hvs
+    exact hvs.1 h0
+  · cases hfit : cfg.fit with
+    | true =>
+      rw [hfit] at hvs
+      exact Sym.minVersion_ge _ _ _ _ hvs
+    | false =>
+      rw [hfit] at hvs
+      by_cases h0 : cfg.version = 0
+      · omega
+      · exact Nat.le_of_eq (hvs.1 h0).symm
+
+/-- the reader also reports the right number of data codewords (ISO Table 7 capacity of (version, level)) -/
+theorem C01_data_codewords (cfg : Model.Cfg) (hcfg : cfg.Valid) (l : Spec.Level) (hl : cfg.level = l.indicator)
+    (segs : List Model.Seg) (hv : ∀ s ∈ segs, s.Valid)
+    (ps : List Spec.PSeg) (hp : toPSegs segs = some ps) (v m : Nat) (M : Model.Mat)
+    (h : Model.compile cfg segs = .ok (v, m, M)) :
+    ∃ r, Spec.read (symOf M) = .ok r ∧ r.dataCodewords.length = Spec.dataCodewords v l ∧
+      Spec.readStream v (Model.writeBytes r.dataCodewords) = some { segs := ps, tailConformant := true } := by
+  obtain ⟨h1, h40, hm7, _⟩ := C03_ok_range cfg hcfg l hl segs hv ps hp v m M h
+  obtain ⟨data, hd, hM⟩ := compile_parts cfg segs v m M h
+  rw [hl] at hd hM
+  have hk : m < 8 := by omega
+  obtain ⟨hlen, hby, hcode, hstream, hdc⟩ := Sym.createData_spec v h1 h40 l segs hv ps hp data hd
+  obtain ⟨M', hM', hshape, _⟩ := Sym.makeImpl_spec v l.indicator m false data h1 h40 (Sym.indicator_lt l) hk
+  rw [hM] at hM'
+  injection hM' with hM'
+  subst hM'
+  have hS : GeoC.Shows (symOf M) (Spec.size v) M := ⟨hshape.1, fun r c _ _ => rfl⟩
+  exact ⟨_, Sym.read_makeImpl v l m data _ ps true M (symOf M) h1 h40 hk hM hS hlen hby hcode rfl hstream, hdc, hstream⟩
+
+/-- **C01 (`add_data`)**: several `add_data(d, optimize=n)` calls with any byte strings and any thresholds produce valid
+    segments that concatenate to exactly the payload - so `C01_read_compile` applies to everything `add_data` produces.
+    (`Bytes` is `List Nat` in the model; the hypothesis says the payload consists of bytes.) -/
+theorem C01_add_data (calls : List (List Nat × Nat)) (hb : ∀ p ∈ calls, ∀ c ∈ p.1, c < 256) :
+    let segs := calls.flatMap fun p => Model.addData p.1 p.2
+    (∀ s ∈ segs, s.Valid) ∧ segs.flatMap (·.data) = calls.flatMap (·.1) := by
+  intro segs
+  constructor
+  · intro s hs
+    obtain ⟨p, hp, hsp⟩ := List.mem_flatMap.mp hs
+    exact Sym.addData_valid p.1 p.2 (hb p hp) s hsp
+  · show (calls.flatMap fun p => Model.addData p.1 p.2).flatMap (·.data) = calls.flatMap (·.1)
+    clear hb segs
+    induction calls with
+    | nil => rfl
+    | cons p calls ih =>
+      rw [List.flatMap_cons, List.flatMap_append, ih, addData_flatMap_data, List.flatMap_cons]
+
+/-- **C01 (end to end)**: payload byte strings added by `add_data` (any thresholds), any valid configuration: whenever
+    `make` succeeds, the strict ISO reader returns the concatenated payload, byte for byte -/
+theorem C01_roundtrip (cfg : Model.Cfg) (hcfg : cfg.Valid) (l : Spec.Level) (hl : cfg.level = l.indicator)
+    (calls : List (List Nat × Nat)) (hb : ∀ p ∈ calls, ∀ c ∈ p.1, c < 256) (v m : Nat) (M : Model.Mat)
+    (h : Model.compile cfg (calls.flatMap fun p => Model.addData p.1 p.2) = .ok (v, m, M)) :
+    ∃ r, Spec.read (symOf M) = .ok r ∧ r.version = v ∧ r.level = l ∧ r.mask = m ∧ r.tailConformant = true ∧
+      r.payload = calls.flatMap (·.1) := by
+  obtain ⟨hvalid, hcat⟩ := C01_add_data calls hb
+  obtain ⟨ps, hp⟩ := toPSegs_of_valid hvalid
+  obtain ⟨r, hr, a1, a2, a3, _, a5, a6, _⟩ := C01_read_compile cfg hcfg l hl _ hvalid ps hp v m M h
+  exact ⟨r, hr, a1, a2, a3, a5, a6.trans hcat⟩
 
 end QR.Props
